@@ -67,11 +67,8 @@ Definition check_case (c : case) : N :=
            | Some d =>
                let eb := encode d in
                if negb (nlist_eqb (firstn (List.length eb) bytes) eb) then 2
-               else if wf d then
-                 match spec_inst d with
-                 | Some i => if outcome_eqb o (Ok i (dsize d)) then 0 else 3
-                 | None => 0
-                 end
+               else if wf d && wf_sdwa_s0_vgpr d then
+                 (if outcome_eqb o (Ok (spec_inst cdna3 d) (dsize d)) then 0 else 3)
                else 0
            end
   | CKernel cdna3 ws count status =>
